@@ -11,7 +11,7 @@
    default 1-d geometry against a StepExpansion / user Continuous1D subclass on the same grid) -- all
    only under q_today. *)
 From CV Require Import Base.Tac Base.LinAlg Base.QcLin Base.Cmp Model.C12_Model Model.C12_Jac Model.C12_Pde Model.C12_Args
-     Proofs.C12_Model Proofs.C12_Chain Proofs.C12_Instances Proofs.C12_Pde Proofs.C12_Deriv Proofs.C12_Unique Proofs.C12_Args.
+     Proofs.C12_Model Proofs.C12_Chain Proofs.C12_Instances Proofs.C12_Pde Proofs.C12_Deriv Proofs.C12_Unique Proofs.C12_Img Proofs.C12_Tie Proofs.C12_Args.
 From Coq Require Import QArith Qcanon.
 
 (* Parameter vector, function values flagged as such, CUQIarray carrying the domain geometry as parameters
@@ -454,6 +454,112 @@ Proof.
   vm_compute. reflexivity.
 Qed.
 
+(* THE GRADIENT CLAUSE IN ONE STATEMENT, about Model.forward itself: for every instance there is ONE matrix
+   J = J_F(par2fun w) geo_jac(w) such that (1) Model.gradient(direction, w) = J^T direction and (2) Model.forward, applied to the
+   parameter vectors of any line through w, is  forward(w) + t (J h) + t^2 R(t)  for all t (R polynomials chosen before t) -- by
+   C12_derivative_is_unique no other matrix-vector product J h qualifies.  (F(x) = A phi_F(x) + b, plain range geometry.) *)
+Theorem C12_gradient_is_transposed_jacobian_of_forward : forall q gf (kt : bool) rg dg n A csF b d w wf JG,
+  model_gfun gf n A csF -> plain1d (g_cls rg) = true ->
+  wf_mat n A -> length d = length A -> length b = length A ->
+  geo_jac dg w = Some JG -> g_par2fun dg w = Ok wf -> length wf = n ->
+  let J := qmatmul (length w) (poly_jac A (pderiv csF) wf) JG in
+  gradient q gf rg dg (GiVec d) (GiVec w) true true = Ok (OutVec (qmattvec (length w) J d) false) /\
+  forall h, length h = length w ->
+    exists c2, length c2 = length A /\ forall t,
+      forward q (mkFwd (poly_forward A csF b) kt) rg dg (InVec (qvadd w (qvscale t h))) true =
+      Ok (OutVec (qvadd (qvadd (poly_forward A csF b wf) (qvscale t (qmatvec J h))) (qvscale (t * t)%Qc (pvec_eval c2 t))) false).
+Proof. exact gradient_is_transposed_jacobian_of_forward. Qed.
+Print Assumptions C12_gradient_is_transposed_jacobian_of_forward.
+
+(* the same value for every representation of direction and linearisation point (state of today's tree, q_fixed: no guard) *)
+Theorem C12_gradient_chain_rule_all_forms : forall gf rg dg n A csF (dplain : bool) d (apd dflag : bool) x (apw wflag : bool) w wf JG,
+  model_gfun gf n A csF -> plain1d (g_cls rg) = true ->
+  wf_mat n A -> length d = length A ->
+  geo_jac dg w = Some JG -> g_par2fun dg w = Ok wf -> length wf = n ->
+  (if apw then Ok x else g_fun2par dg x) = Ok w ->
+  (if apw then g_par2fun dg x else Ok x) = g_par2fun dg w ->
+  let g := qmattvec (length w) (qmatmul (length w) (poly_jac A (pderiv csF) wf) JG) d in
+  out_values (gradient q_fixed gf rg dg (if dplain then GiVec d else GiArr rg apd d) (GiArr dg apw x)
+                       (if dplain then true else dflag) wflag) = Ok [g] /\
+  out_values (gradient q_fixed gf rg dg (GiArr rg apd d) (GiVec w) dflag true) = Ok [g] /\
+  gradient q_fixed gf rg dg (GiVec d) (GiVec w) false true = Ok (OutVec g false).
+Proof. exact gradient_chain_rule_all_forms. Qed.
+Print Assumptions C12_gradient_chain_rule_all_forms.
+
+(* "wrapped like the input", gradient: whenever a value comes back for a CUQIarray direction it is a CUQIarray carrying the
+   model's domain geometry (every model kind, geometry, representation of wrt, flag and state q) *)
+Theorem C12_gradient_wrapped_like_direction : forall q gf rg dg direction wrt dp wp out,
+  gradient q gf rg dg direction wrt dp wp = Ok out -> gi_is_arr direction = true ->
+  exists v z, out = OutArr dg v z.
+Proof. exact gradient_wrapped_like_direction. Qed.
+Print Assumptions C12_gradient_wrapped_like_direction.
+
+(* what the conjuncts of the generated cells establish: check_chain_rule = true gives the hypotheses of
+   C12_chain_rule_value_is_gradient with the OBSERVED gradient as value; pde_ops_ok = true gives the hypothesis of C12_pde_case_forward *)
+Theorem C12_check_chain_rule_sound : forall A csF dg d w obs,
+  check_chain_rule false A csF dg d w obs = true -> chain_rule_value A csF dg d w = Some (qvec obs).
+Proof. exact check_chain_rule_sound. Qed.
+Print Assumptions C12_check_chain_rule_sound.
+
+Theorem C12_pde_ops_ok_sound : forall n (xdep : bool) T xs, pde_ops_ok n xdep T xs = true ->
+  forall x, (xdep = true -> In x xs) -> inv_ok n (if xdep then pde_xop T x else T) = true.
+Proof. exact pde_ops_ok_sound. Qed.
+Print Assumptions C12_pde_ops_ok_sound.
+
+(* ---- Image2D(order='F') domains (round 2 listed this as "correspondence only") -----------------------
+   par2fun is the permutation p |-> P p, P = img_perm r c computed by the model, and fun2par is P^T; the gradient through such a
+   domain is (J_F(par2fun w) P)^T direction for every model kind as written for a 2-d domain (flat Jacobians / flat PDE
+   gradients indexed like the parameter vector; 2-d gradient / adjoint results ravelled by Image2D.fun2par). *)
+Theorem C12_imgF_conversions_are_permutation : forall r c v, length v = (r * c)%nat ->
+  img_par2fun r c v = qmatvec (img_perm r c) v /\ img_fun2par r c v = qmattvec (r * c) (img_perm r c) v.
+Proof. intros r c v H. split; [apply img_par2fun_is_matvec | apply img_fun2par_is_mattvec]; exact H. Qed.
+Print Assumptions C12_imgF_conversions_are_permutation.
+
+Theorem C12_gradient_chain_rule_imgF : forall q gf rg dg r c n A csF d w,
+  model_gfun_F gf r c n A csF -> imgF_geo dg r c -> plain1d (g_cls rg) = true -> n = (r * c)%nat ->
+  wf_mat n A -> length d = length A -> length w = n ->
+  gradient q gf rg dg (GiVec d) (GiVec w) true true =
+  Ok (OutVec (qmattvec n (qmatmul n (poly_jac A (pderiv csF) (img_par2fun r c w)) (img_perm r c)) d) false).
+Proof. exact gradient_chain_rule_imgF. Qed.
+Print Assumptions C12_gradient_chain_rule_imgF.
+
+Theorem C12_imgF_jacobian_law : forall dg r c w h, imgF_geo dg r c -> length w = (r * c)%nat -> length h = (r * c)%nat ->
+  exists c2, length c2 = length (img_par2fun r c w) /\
+    forall t, g_par2fun dg (qvadd w (qvscale t h)) =
+              Ok (qvadd (qvadd (img_par2fun r c w) (qvscale t (qmatvec (img_perm r c) h))) (qvscale (t * t)%Qc (pvec_eval c2 t))).
+Proof. exact imgF_jacobian_law. Qed.
+Print Assumptions C12_imgF_jacobian_law.
+
+Theorem C12_gradient_is_transposed_jacobian_of_forward_imgF : forall q gf (kt : bool) rg dg r c n A csF b d w,
+  model_gfun_F gf r c n A csF -> imgF_geo dg r c -> plain1d (g_cls rg) = true -> n = (r * c)%nat ->
+  wf_mat n A -> length d = length A -> length b = length A -> length w = n ->
+  let wf := img_par2fun r c w in
+  let J := qmatmul n (poly_jac A (pderiv csF) wf) (img_perm r c) in
+  gradient q gf rg dg (GiVec d) (GiVec w) true true = Ok (OutVec (qmattvec n J d) false) /\
+  forall h, length h = n ->
+    exists c2, length c2 = length A /\ forall t,
+      forward q (mkFwd (poly_forward A csF b) kt) rg dg (InVec (qvadd w (qvscale t h))) true =
+      Ok (OutVec (qvadd (qvadd (poly_forward A csF b wf) (qvscale t (qmatvec J h))) (qvscale (t * t)%Qc (pvec_eval c2 t))) false).
+Proof. exact gradient_is_transposed_jacobian_of_forward_imgF. Qed.
+Print Assumptions C12_gradient_is_transposed_jacobian_of_forward_imgF.
+
+Example C12_imgF_example :
+  imgF_geo (mkGeo KImage2D 6 6 (CvImgF 2 3) None F2Base None 0) 2 3 /\
+  qcll_eqb (img_perm 2 2) (qmat [[1#1;0#1;0#1;0#1];[0#1;0#1;1#1;0#1];[0#1;1#1;0#1;0#1];[0#1;0#1;0#1;1#1]]) = true.
+Proof. exact imgF_example. Qed.
+
+(* ---- LinearModel(matrix) with the geometries LinearModel.__init__ derives from the matrix shape: every clause, concretely ---- *)
+Theorem C12_linear_matrix_model : forall q A n p d,
+  wf_mat n A -> length p = n -> length d = length A ->
+  let '(F, rg, dg, gf) := linear_matrix_model A n in
+  forward q F rg dg (InVec p) true = Ok (OutVec (qmatvec A p) false) /\
+  forward q F rg dg (InVec p) false = Ok (OutVec (qmatvec A p) false) /\
+  (forall ap flag, forward q F rg dg (InArr dg ap p) flag = Ok (OutArr rg (qmatvec A p) false)) /\
+  (forall cols, forward q F rg dg (InSamples false cols) true = Ok (OutSamples rg (map (qmatvec A) cols))) /\
+  gradient q gf rg dg (GiVec d) (GiVec p) true true = Ok (OutVec (qmattvec n A d) false).
+Proof. exact linear_matrix_model_clauses. Qed.
+Print Assumptions C12_linear_matrix_model.
+
 Import String.StringSyntax.
 Local Open Scope string_scope.
 
@@ -494,6 +600,26 @@ Theorem C12_forward_refuses_several_inputs : forall nda sg npos kws,
 Proof. exact forward_refuses_several_inputs. Qed.
 Print Assumptions C12_forward_refuses_several_inputs.
 
+(* ... stated on the signature itself (Python forbids duplicate parameter names), and the callable without any required parameter *)
+Theorem C12_several_required_parameters_refused : forall sg npos kws,
+  NoDup (map pa_name sg) -> (2 <= length (filter required sg))%nat ->
+  forward_accepts (non_default_args false sg) sg npos kws = false.
+Proof. exact several_required_parameters_refused. Qed.
+Print Assumptions C12_several_required_parameters_refused.
+
+Theorem C12_no_required_parameter_refused : forall sg npos kws, forward_accepts [] sg npos kws = false.
+Proof. exact no_required_parameter_refused. Qed.
+Print Assumptions C12_no_required_parameter_refused.
+
+(* COMPLETE CHARACTERISATION: a positional input is accepted exactly when the callable has ONE required parameter and that
+   parameter takes positional arguments *)
+Theorem C12_forward_accepts_iff : forall sg,
+  pos_defaults_ok false sg = true ->
+  (forward_accepts (non_default_args false sg) sg 1 [] = true <->
+   exists p0, filter required sg = [p0] /\ positional (pa_kind p0) = true).
+Proof. exact forward_accepts_iff. Qed.
+Print Assumptions C12_forward_accepts_iff.
+
 (* the code before /repo 074a70c (variadics recognised by the NAMES args / kwargs) was right exactly under the naming
    convention, and wrong outside it: FIXED in /repo; witness kept *)
 Theorem C12_non_default_args_by_name_agrees_under_convention : forall sg,
@@ -527,6 +653,12 @@ Theorem C12_pde_forward_is_function_of_input : forall P slv st x,
   snd (pde_forward_func P slv st x) = Some (pde_form P x).
 Proof. exact pde_forward_is_function_of_input. Qed.
 Print Assumptions C12_pde_forward_is_function_of_input.
+
+Theorem C12_pde_columns_are_independent : forall P slv st cols,
+  fst (pde_forward_columns P slv st cols) = map (fun x => Ok (f_apply (pde_fwd P slv) x)) cols /\
+  snd (pde_forward_columns P slv st cols) = match rev cols with x :: _ => Some (pde_form P x) | [] => st end.
+Proof. exact pde_columns_are_independent. Qed.
+Print Assumptions C12_pde_columns_are_independent.
 
 (* the solver the correspondence evaluates is CHECKED (inv_ok: elimination result multiplied back from both sides): its
    answer solves the system and every solution equals it; so any solver that returns a solution returns this one *)
